@@ -219,7 +219,13 @@ Seqs == << <<"seq", <<"replace", FALSE, <<>>, Re(FALSE, <<<<"a", "1">>>>, FALSE)
            <<"seq", <<"replace", FALSE, <<>>, Re(FALSE, <<<<"nl", "1">>>>, FALSE), <<>>>>, <<"filter", <<"lnum", "==", 1>>>>>>,
            <<"seq", <<"seq", <<"stripnl">>, <<"replace", FALSE, <<>>, Re(FALSE, <<<<"sp", "1">>>>, FALSE), <<NL>>>>>>,
                     <<"filter", <<"lnum", ">=", 2>>>>>>,
-           <<"seq", <<"id">>, <<"seq", <<"grep", FALSE, Re(FALSE, <<<<"a", "1">>>>, FALSE)>>, <<"id">>>>>> >>
+           <<"seq", <<"id">>, <<"seq", <<"grep", FALSE, Re(FALSE, <<<<"a", "1">>>>, FALSE)>>, <<"id">>>>>>,
+           \* A | B is B applied to the OUTPUT of A: the line numbers the second filter sees are those of that output
+           <<"seq", <<"filter", <<"cmatch", FALSE, Re(FALSE, <<<<"a", "1">>>>, FALSE)>>>>, <<"filter", <<"lnot", <<"lnum", "==", 2>>>>>>>>,
+           <<"seq", <<"filter", <<"lnot", <<"cempty">>>>>>, <<"filter", <<"lnum", "!=", 1>>>>>>,
+           <<"seq", <<"grep", FALSE, Re(FALSE, <<<<"b", "1">>>>, FALSE)>>,
+                    <<"filter", <<"lor", <<"lnum", "==", 1>>, <<"lnum", ">=", 3>>>>>>>>,
+           <<"seq", <<"filter", <<"lnum", ">=", 2>>>>, <<"seq", <<"filter", <<"lnum", ">=", 2>>>>, <<"filter", <<"lnum", "!=", 2>>>>>>>> >>
 Transformers == Basic \o Filters \o Greps \o Replaces \o ReplacesNullable \o ReplacesAt \o Seqs
 
 EqualsTexts == << <<>>, <<NL>>, <<CA>>, <<CA, NL>>, <<CA, NL, CB>>, <<SP>>, <<CA, SP>>, <<NL, NL>> >>
